@@ -211,6 +211,8 @@ class SimSocket(object):
         self._io_refs = 0            # real close while makefile()s exist)
         self.fd = net.new_fd(self)
         self.connect_failed = False
+        self.timeout = None
+        self.family, self.type, self.proto = family, type_, proto
         self.sim.log('socket', self.fd)
 
     # -- helpers
@@ -244,13 +246,19 @@ class SimSocket(object):
         sim.after(0, lambda: net.server.on_accept(conn),
                   'accept[%d]' % conn.index)
 
-    def makefile(self, mode='r', buffering=None):
-        if mode != 'rb' or buffering != 0:
-            raise HarnessError('unsupported makefile%r' % ((mode, buffering),))
+    def makefile(self, mode='r', buffering=None, **kw):
+        if mode not in ('rb', 'br') or kw:
+            self.sim.unsupported('makefile%r' % ((mode, buffering, kw),))
         if self._closed:
             raise OSError(errno.EBADF, 'Bad file descriptor')
         self._io_refs += 1
-        return SimSocketIO(self)
+        raw = SimSocketIO(self)
+        if buffering == 0:
+            return raw
+        import io
+        size = io.DEFAULT_BUFFER_SIZE if buffering in (None, -1) \
+            else buffering
+        return io.BufferedReader(_RawAdapter(raw), size)
 
     def fileno(self):
         return -1 if self.closed else self.fd
@@ -340,10 +348,52 @@ class SimSocket(object):
             sim.dirty = True
 
     def settimeout(self, t):
-        pass
+        if t is not None and t < 0:
+            raise ValueError('Timeout value out of range')
+        self.timeout = t
+
+    def gettimeout(self):
+        return self.timeout
+
+    def setblocking(self, flag):
+        self.timeout = None if flag else 0.0
+
+    def getblocking(self):
+        return self.timeout != 0.0
 
     def setsockopt(self, *a):
         pass
+
+    def getsockopt(self, *a):
+        return 0
+
+    def getpeername(self):
+        if self.conn is None:
+            raise OSError(errno.ENOTCONN,
+                          'Transport endpoint is not connected')
+        return (MARKER_ADDR[0], 25565)
+
+    def getsockname(self):
+        return ('192.0.2.7', 40000 + self.fd)
+
+    def recv_into(self, buf, nbytes=0):
+        data = self.recv(nbytes or len(buf))
+        buf[:len(data)] = data
+        return len(data)
+
+    def detach(self):
+        self.sim.unsupported('socket.detach()')
+
+    def __enter__(self):
+        return self
+
+    def __exit__(self, *a):
+        self.close()
+
+    def __getattr__(self, name):
+        if name.startswith('__'):
+            raise AttributeError(name)
+        self.sim.unsupported('socket object .%s' % name)
 
 
 def _read(sock, n):
@@ -387,7 +437,16 @@ def _read(sock, n):
         if n == 0:
             return b''
         sim.stat('read-blocked')
-        sim.block(conn.readable, reason='read[%d]' % conn.index)
+        to = sock.timeout
+        if to is None:
+            sim.block(conn.readable, reason='read[%d]' % conn.index)
+        elif to == 0:
+            raise BlockingIOError(errno.EAGAIN,
+                                  'Resource temporarily unavailable')
+        elif not sim.block(conn.readable, int(to * 1e6),
+                           reason='read[%d]' % conn.index):
+            sim.log('read-timeout', conn.index)
+            raise TimeoutError('timed out')
 
 
 class SimSocketIO(object):
@@ -427,6 +486,34 @@ class SimSocketIO(object):
             sim.dirty = True
 
 
+import io as _io
+
+
+class _RawAdapter(_io.RawIOBase):
+    """Lets io.BufferedReader sit on top of a SimSocketIO (a buffered
+    makefile(): it reads ahead, exactly like the real one)."""
+
+    def __init__(self, raw):
+        _io.RawIOBase.__init__(self)
+        self._raw = raw
+
+    def readable(self):
+        return True
+
+    def readinto(self, b):
+        data = _read(self._raw.sock, len(b))
+        b[:len(data)] = data
+        return len(data)
+
+    def fileno(self):
+        return self._raw.fileno()
+
+    def close(self):
+        if not self.closed:
+            self._raw.close()
+        _io.RawIOBase.close(self)
+
+
 class SimSocketModule(object):
     """Stands in for the `socket` module as seen by connection.py."""
     AF_INET, AF_INET6, SOCK_STREAM = AF_INET, AF_INET6, SOCK_STREAM
@@ -449,10 +536,24 @@ class SimSocketModule(object):
         self._net.sim.yield_point(18)
         return SimSocket(self._net, family, type_, proto)
 
-    def create_connection(self, addr, *a, **k):
+    def create_connection(self, addr, timeout=None, source_address=None,
+                          **k):
         s = self.socket()
+        if timeout is not None:
+            s.settimeout(timeout)
         s.connect(addr)
         return s
+
+    def gethostbyname(self, host):
+        return MARKER_ADDR[0]
+
+    def __getattr__(self, name):
+        import socket as real
+        val = getattr(real, name, None)
+        if isinstance(val, int) and not isinstance(val, bool) or \
+                isinstance(val, type) and issubclass(val, BaseException):
+            return val          # constants (SOL_SOCKET, TCP_NODELAY, ...)
+        self._net.sim.unsupported('socket.%s' % name)
 
 
 class SimSelectModule(object):
@@ -503,6 +604,13 @@ class SimSelectModule(object):
 
     def poll(self):
         return SimPoll(self)
+
+    def __getattr__(self, name):
+        import select as real
+        val = getattr(real, name, None)
+        if isinstance(val, int) and not isinstance(val, bool):
+            return val
+        self._net.sim.unsupported('select.%s' % name)
 
     def _count_eof(self, conn):
         if not conn.s2c_avail and (conn.s2c_eof or conn.local_shutdown):
